@@ -50,7 +50,7 @@ static int logging, no_ring, multi;
 /* scripted batches of the current run: entries (fd, events), batch boundaries */
 static struct epoll_event* sb_ev;
 static int* sb_end;
-static int sb_nb, sb_cur, sb_scripted;
+static int sb_nb, sb_cur, sb_scripted, real_calls;
 
 /* ------------------------------------------------------------------ interposition */
 __attribute__((no_sanitize("address", "undefined")))
@@ -142,7 +142,9 @@ int epoll_pwait(int epfd, struct epoll_event* ev, int maxev, int timeout, const 
       sb_cur++;
     }
   } else {
-    n = (int) syscall(SYS_epoll_pwait, epfd, ev, maxev, 0, ss, 8);
+    /* a level-triggered stale entry would make libuv re-poll forever: after 64 calls in one
+     * uv_run the kernel "reports nothing" (only reachable with the discipline switch multi=1) */
+    n = ++real_calls > 64 ? 0 : (int) syscall(SYS_epoll_pwait, epfd, ev, maxev, 0, ss, 8);
     if (n < 0) n = 0;
     qsort(ev, n, sizeof ev[0], cmp_ev);
   }
@@ -368,6 +370,7 @@ static void do_op(char* line) {
     sb_scripted = *p == 'S';
     if (sb_scripted) { char* c = strdup(p + 1); parse_batches(c); free(c); }
     printf("op run\n");
+    real_calls = 0;
     uv_run(&loop, UV_RUN_ONCE);
     sb_scripted = 0;
     obs();
@@ -382,7 +385,7 @@ static void do_op(char* line) {
     if (a < FD_LO || a >= FD_HI || slots[a].open || open_slot(a, b)) printf("refused\n");
     else printf("ret 0\n");
   } else if (strcmp(cmd, "closefd") == 0 && n == 2) {
-    if (fd_open(a) && fd_idle(a)) {
+    if (fd_open(a) && (fd_idle(a) || multi)) {
       close(a);
       if (slots[a].peer >= 0) close(slots[a].peer);
       slots[a].open = 0; slots[a].peer = -1;
